@@ -463,7 +463,10 @@ func match(pattern ast.Atom, subst *unionfind.UnionFind) (bool, *unionfind.Union
 		if !ok || name.Type != ast.NameType {
 			return false, nil, nil
 		}
-		return strings.HasPrefix(name.Symbol, pat.Symbol) && len(name.Symbol) > len(pat.Symbol), subst, nil
+		// The prefix has to end at a part boundary: /fruitcake does not have
+		// the prefix /fruit. This is the membership test of the name prefix
+		// type, which bounds inference takes :match_prefix to be.
+		return strings.HasPrefix(name.Symbol, pat.Symbol+"/"), subst, nil
 
 	case symbols.StartsWith.Symbol:
 		if len(pattern.Args) != 2 {
